@@ -224,11 +224,17 @@ def make_array(dt, vals, shape, as_list):
         a = np.empty(int(np.prod(shape)), dtype=object)
         for i, v in enumerate(vals):
             a[i] = v
-        return a.reshape(shape)
-    if npdt is str:
+        a = a.reshape(shape)
+    elif npdt is str:
         a = np.array(nested, dtype=str) if len(vals) else np.empty(shape, dtype="<U1")
-        return a.reshape(shape)
-    return np.array(nested, dtype=npdt).reshape(shape)
+        a = a.reshape(shape)
+    else:
+        a = np.array(nested, dtype=npdt).reshape(shape)
+    # label matrices are often built as a transposed stack of per-annotator vectors: every third 2-d array is handed over in
+    # Fortran order (same values, same shape; seed R9C16)
+    if len(shape) == 2 and shape[0] >= 2 and shape[1] >= 2 and (shape[0] + shape[1] + len(repr(vals))) % 3 == 0:
+        a = np.asfortranarray(a)
+    return a
 
 
 def case_lbl(ctx, lines, expect, dt, vals, shape, ml, as_list):
